@@ -24,7 +24,10 @@ def base_cases(rng, n):
     return out
 
 def case_line(cid, t, data, parts, entry, failat):
-    ops = [f'regs {x(n)} {x(s)}' for n, s in parts.items()]
+    # every third base case runs with the helperMissing / blockHelperMissing hooks registered: a hook must not turn a
+    # writer failure inside a found helper into something else
+    hk = int(cid[1:].split('k')[0].split('o')[0].split('e')[0]) % 3 == 2
+    ops = (['probes', 'hooks 3'] if hk else []) + [f'regs {x(n)} {x(s)}' for n, s in parts.items()]
     if entry in (2, 3):
         ops += [f'regs {x("main")} {x(t)}', f'r {entry} {x("main")} {jtok(data)} {failat}']
     else:
